@@ -5,6 +5,14 @@ I = "src/image.rs"
 G = "src/glyph.rs"
 F = "src/face.rs"
 X = "src/view/flex.rs"
+_SER_LOOP = ('        let mut writer = Base64Encoder::new(Vec::new());\n        for pixel in self.iter() {\n            writer.write_all(&pixel.to_rgba()).map_err(|err| {\n'
+             '                ser::Error::custom(format!("[Image] faield to serialize data: {err}"))\n            })?;\n        }\n        let data = writer.finish().map_err(|err| {\n')
+_SER_CALL = '        let data = base64_rgba(self).map_err(|err| {\n'
+_KITTY_LOOP = ('            let mut payload_write = Base64Encoder::new(Vec::new());\n            for color in img.iter() {\n                payload_write.write_all(&color.to_rgba())?;\n            }\n'
+               '            let payload = payload_write.finish()?;\n')
+_DE_DOC = "/// [Image] deserializer encoding is `{ data: base64(deflate(image)), size: Size, channels: u8 }`\n"
+_B64_HELPER = ('fn base64_rgba(img: &Image) -> std::io::Result<Vec<u8>> {\n    let mut encoder = Base64Encoder::new(Vec::new());\n    for pixel in img.iter() {\n        encoder.write_all(&pixel.%s)?;\n    }\n'
+               '    encoder.finish()\n}\n\n')
 MUTANTS = [
     # ---------------- SER-KEYS ----------------
     {"id": "C19-image-ser-key-channel", "prop": "C19", "expect": "SER-KEYS/Image::serialize/unaccepted:channel",
@@ -210,4 +218,23 @@ MUTANTS += [
      "edits": [("src/image.rs", _EXPECTED, "                let expected_size = match channels.checked_mul(size.height) {\n                    Some(count) => Some(count.wrapping_mul(size.width)),\n                    None => None,\n                };\n")]},
     {"id": "C19-image-size-product-two-factors", "prop": "C19", "expect": "IMAGE-SIZE",
      "edits": [("src/image.rs", _EXPECTED, "                let expected_size = channels.checked_mul(size.height);\n")]},
+    # ---------------- robustness round K6: flag test spellings of names(), encoding loop in a (shared) private helper ----------------
+    {"id": "C19-benign-names-flag-test-eq-flag", "prop": "C19", "benign": True,
+     "edits": [(F, "            if self.bits & flag.bits != 0 {\n", "            if self.bits & flag.bits == flag.bits {\n")]},
+    {"id": "C19-benign-names-flag-test-flipped", "prop": "C19", "benign": True,
+     "edits": [(F, "            if self.bits & flag.bits != 0 {\n", "            if 0 < flag.bits & self.bits {\n")]},
+    {"id": "C19-benign-names-flag-test-continue", "prop": "C19", "benign": True,
+     "edits": [(F, "            if self.bits & flag.bits != 0 {\n                iter.push(name);\n            }\n", "            if self.bits & flag.bits == 0 {\n                continue;\n            }\n            iter.push(name);\n")]},
+    {"id": "C19-names-flag-test-negated", "prop": "C19", "expect": "FACE-NAMES",
+     "edits": [(F, "            if self.bits & flag.bits != 0 {\n", "            if self.bits & flag.bits == 0 {\n")]},
+    {"id": "C19-names-flag-test-other-flag", "prop": "C19", "expect": "FACE-NAMES",
+     "edits": [(F, "            if self.bits & flag.bits != 0 {\n", "            if self.bits & Self::BOLD.bits == flag.bits {\n")]},
+    {"id": "C19-benign-image-base64-helper-shared", "prop": "C19", "benign": True,
+     "edits": [(I, _SER_LOOP, _SER_CALL), (I, _KITTY_LOOP, "            let payload = base64_rgba(img)?;\n"), (I, _DE_DOC, _B64_HELPER % "to_rgba()" + _DE_DOC)]},
+    {"id": "C19-benign-image-base64-helper-single", "prop": "C19", "benign": True,
+     "edits": [(I, _SER_LOOP, _SER_CALL), (I, _DE_DOC, _B64_HELPER % "to_rgba()" + _DE_DOC)]},
+    {"id": "C19-image-base64-helper-writes-3-bytes", "prop": "C19", "expect": "IMAGE-CHANNELS",
+     "edits": [(I, _SER_LOOP, _SER_CALL), (I, _KITTY_LOOP, "            let payload = base64_rgba(img)?;\n"), (I, _DE_DOC, _B64_HELPER % "to_rgba()[..3]" + _DE_DOC)]},
+    {"id": "C19-image-base64-helper-writes-twice", "prop": "C19", "expect": "IMAGE-CHANNELS",
+     "edits": [(I, _SER_LOOP, _SER_CALL), (I, _DE_DOC, (_B64_HELPER % "to_rgba()").replace("    }\n    encoder.finish()", "        encoder.write_all(&[0u8; 1])?;\n    }\n    encoder.finish()") + _DE_DOC)]},
 ]
